@@ -211,6 +211,16 @@ def run (c : Case) : CaseOut := Id.run do
     | ["tick"] =>
       w := { w with wm := Wm.tick w.wm false now }
       obs := obs ++ [[]]
+    | ["trigger"] =>
+      -- manual flush: every open session as it stands; the oracle waives the watermark clause for these deliveries
+      let (w', es) := flushAll w
+      w := w'
+      obs := obs ++ [es.map emLine]
+      evs := evs ++ (evsOfObs implObs []).map (fun e => match e with
+        | .emit false k a b ids => SessSpec.Ev.forced k a b ids
+        | e => e)
+      mops := mops ++ [Session.Op.tick true 0]   -- not an in-order history in the sense of the reference clause
+      unless tags.contains "manual-trigger" do tags := "manual-trigger" :: tags
     | _ => obs := obs ++ [[["bad-op"]]]
   let scfg : SessSpec.Cfg := { timeout := timeout, ooo := ooo, lateness := late, now := now }
   let spec := match SessSpec.holds scfg evs flushed with
